@@ -89,7 +89,7 @@ def base_model(resmodel, S, L, T):
         _MODELS[key] = (m, gx.Snapshot(m))
     m, snap = _MODELS[key]
     snap.restore()
-    R.Reservoir.Calculate.cache_clear()
+    getattr(R.Reservoir.Calculate, 'cache_clear', lambda: None)()     # the memo is an implementation detail
     return m
 
 
@@ -176,7 +176,7 @@ def run_walk(unit):
         m0 = base_model(4, S0, 2, 2)
         install_walk(m0, S0, dict({'Tsurf': 15.0, 'Tmax': 400.0, 'depth': 6000.0}, **{f'gradient[{i}]': 0.03 + 0.01 * i for i in range(S0)},
                                   **{f'thickness[{i}]': 800.0 + 300.0 * i for i in range(S0 - 1)}))
-        R.Reservoir.Calculate.__wrapped__(m0.reserv, m0)
+        gx.unwrapped(R.Reservoir.Calculate)(m0.reserv, m0)
     log = harness.UnitLog(cfg)
 
     def drive(v, symbolic):
@@ -184,9 +184,9 @@ def run_walk(unit):
         install_walk(m, S, v)
         if symbolic:
             with shim.shadow(*RES_SHADOWS):
-                R.Reservoir.Calculate.__wrapped__(m.reserv, m)
+                gx.unwrapped(R.Reservoir.Calculate)(m.reserv, m)
         else:
-            R.Reservoir.Calculate.__wrapped__(m.reserv, m)
+            gx.unwrapped(R.Reservoir.Calculate)(m.reserv, m)
         return m
 
     def fn():
@@ -273,10 +273,10 @@ def run_walk_input(unit):
             if symbolic:
                 with shim.shadow(*(list(c07.param_shadows()) + RES_SHADOWS)):
                     R.Reservoir.read_parameters(r, m)
-                    R.Reservoir.Calculate.__wrapped__(r, m)
+                    gx.unwrapped(R.Reservoir.Calculate)(r, m)
             else:
                 R.Reservoir.read_parameters(r, m)
-                R.Reservoir.Calculate.__wrapped__(r, m)
+                gx.unwrapped(R.Reservoir.Calculate)(r, m)
         return m
 
     def stated(vals):
@@ -364,6 +364,11 @@ def erf_axioms(terms):
 def run_history(unit):
     resmodel, L, T = unit['model'], unit['L'], unit['T']
     cfg = {'harness': 'history', 'reservoir_model': resmodel, 'L': L, 'T': T}
+    passes = unit.get('passes', 1)
+    if passes > 1:
+        # Model.Calculate runs reservoir -> wellbores -> surface plant twice for district heating: the reservoir step is entered again on
+        # the same objects, with a non-zero injection-wellbore temperature gain (which the step adds to the injection temperature)
+        cfg['reservoir passes (district-heating style)'] = passes
     log = harness.UnitLog(cfg)
     N = L * T
     mods = {1: MPFReservoir, 2: LHSReservoir, 3: SFReservoir, 4: TDPReservoir}
@@ -381,6 +386,9 @@ def run_history(unit):
 
     names = ['Tsurf', 'gradient[0]', 'Tinj', 'drawdp']
     ranges = {'Tsurf': (-50, 50), 'gradient[0]': (1e-6, 0.5), 'Tinj': (0, 200), 'drawdp': (0, 0.2) if resmodel == 4 else (1e-6, 1)}
+    if passes > 1:
+        names.append('gain')
+        ranges['gain'] = (0, 20)
 
     def drive(v, symbolic):
         m = base_model(resmodel, 1, L, T)
@@ -390,20 +398,21 @@ def run_history(unit):
         g[0] = v['gradient[0]']
         r.gradient.value = g
         m.wellbores.Tinj.value = v['Tinj']
-        m.wellbores.tempgaininj.value = 0.0
+        m.wellbores.tempgaininj.value = v.get('gain', 0.0)
         if resmodel in (3, 4):
             r.drawdp.value = v['drawdp']
-        if symbolic:
-            with shim.shadow(*(RES_SHADOWS + extra)):
+        for _ in range(passes):
+            if symbolic:
+                with shim.shadow(*(RES_SHADOWS + extra)):
+                    m.reserv.Calculate(m)
+            else:
                 m.reserv.Calculate(m)
-        else:
-            m.reserv.Calculate(m)
         return m
 
     def obligations(v, m):
         r = m.reserv
         Tres = list(r.Tresoutput.value)
-        Trock, Tinj = r.Trock.value, m.wellbores.Tinj.value
+        Trock, Tinj = r.Trock.value, v['Tinj'] + v.get('gain', 0.0)       # the stated injection temperature plus the stated wellbore gain
         out = [('series has one value per time step', len(Tres) == N),
                ('reservoir temperature history starts at bottom-hole temperature', eq(Tres[0], Trock))]
         mono = []
@@ -587,6 +596,8 @@ def units(tier, seed):
     # long lifetimes for the percentage-drawdown model: drawdown rate x lifetime > 1 drives the linear decline below the injection temperature
     for (L, T) in ([(6, 1)] if tier == 'quick' else [(6, 1), (10, 1), (6, 2), (25, 1)]):
         us.append({'harness': 'history', 'model': 4, 'L': L, 'T': T})
+    for model in ((4,) if tier == 'quick' else (3, 4)):
+        us.append({'harness': 'history', 'model': model, 'L': 2, 'T': 2, 'passes': 2})
     for N in META['bounds'][tier]['redrilling series length N']:
         us.append({'harness': 'redrilling', 'N': N})
     return us
